@@ -171,10 +171,11 @@ CHECKS["C14"] = {
 
 CHECKS["C10"] = {
     "category": "model_checking",
-    "technique": "TLA+ ConnAdv.tla (reaction of the multiplexer to every frame-header class) and Listener.tla (stages of the connection establishment x malformed input classes) enumerated by TLC and replayed on a real Mux and on the listener of a real running node (T2); table-driven extremes and seeded mutations through the real decoders, replica handler, inbound queue and noise stream under catch_unwind",
+    "technique": "TLA+ ConnAdv.tla (reaction of the multiplexer to every frame-header class), MuxBuffer.tla (inbound buffering: permits before bytes) and Listener.tla (stages of the connection establishment x malformed input classes) enumerated by TLC and replayed on a real Mux and on the listener of a real running node (T2); table-driven extremes and seeded mutations through the real decoders, replica handler, inbound queue and noise stream under catch_unwind",
     "text": "PARTIAL. Decided: every mux header path of the bounded alphabet; every (stage, malformed class, endpoint) path of the connection establishment against a "
             "running node, which must stay up, keep admitting honest peers and drain its pools; single-field extremes of the std conversions and genesis; validly signed consensus "
-            "messages with maximal views / empty / oversized collections; garbage ciphertext. Sampled only: decoder totality over byte strings (seeded mutations, "
+            "messages with maximal views / empty / oversized collections; garbage ciphertext; the buffering limits of the multiplexer (MuxBuffer.tla: what a real Mux pulls from a raw flooding peer, "
+            "byte-exact against the specification's blocked state, with an application that reads nothing or only part of a frame). Sampled only: decoder totality over byte strings (seeded mutations, "
             "truncations, random strings).",
     "note": "Not covered: arbitrary byte strings exhaustively (a fuzzing question); RPC bodies are malformed by class (garbage, oversize, truncated, empty, wrong message), not field by field. Four defects found by this check were repaired (known_findings.txt).",
     "design_ref": "§7 C10, §9",
